@@ -133,7 +133,7 @@ CLAIMED = {
     "C15": dict(
         text="Kernel-checked: the schedule is the unique sorted permutation of both tracks' entries; restricted to either track it is the track in sample order (for every reachable state); any two "
              "entries are ordered by (timestamp, video before audio, index); when pts = dts the key is the presentation time, so no sample is stored after a later-timestamped sample of the other track. "
-             "Correspondence on absolute offsets of all samples, all submission orders, both layouts. End to end (C15_e2e, C15_history): the chunk-offset tables decoded from the delivered file, merged, list all samples in timestamp order (video first on ties) with each sample ending before the next begins, for every reachable writer and, with the submitted timestamps, for every history of write calls.",
+             "Correspondence on absolute offsets of all samples, all submission orders, both layouts. End to end (C15_e2e, C15_history): the chunk-offset tables decoded from the delivered file, merged, list all samples in timestamp order (video first on ties) with each sample ending before the next begins, for every reachable writer and, with the submitted timestamps, for every history of write calls. compute_interleave_schedule is TRANSLATED from src/muxer/mp4.rs on every run (tools/rs2lean_sched.py) and proved equal to the model's schedule for every reachable writer (Props/C15Generated.lean).",
         note=TB,
         technique="Lean 4 proof (List.mergeSort permutation/sortedness/sublist lemmas) + correspondence check",
         ref="DESIGN.md section 5 C15"),
